@@ -35,16 +35,17 @@ const nKeys = 6
 func keyName(i int) string { return fmt.Sprintf("k%d", i) }
 
 type gen14 struct {
-	r       *rand.Rand
-	nextID  int
-	prefix  string
-	nsub    int
-	itKeys  map[string]bool // keys used as iteration variables (never user vars)
-	nodes   map[int]*Node
-	parent  map[int]int
-	depthOf map[int]int
-	probes  map[string]int
-	dens    [nKeys]int // per-key density of definitions in this tree (percent)
+	r         *rand.Rand
+	nextID    int
+	prefix    string
+	nsub      int
+	itKeys    map[string]bool // keys used as iteration variables (never user vars)
+	nodes     map[int]*Node
+	parent    map[int]int
+	depthOf   map[int]int
+	probes    map[string]int
+	dens      [nKeys]int // per-key density of definitions in this tree (percent)
+	nullForms map[string]int
 }
 
 func (g *gen14) id() int { g.nextID++; return g.nextID }
@@ -77,6 +78,17 @@ func (g *gen14) value(kind string, id, k int, pl int, visible map[string]bool) T
 		return Tpl{{K: PRef, S: ref}, {K: PLit, S: "~" + tag}}
 	}
 	return Lit(tag)
+}
+
+// kv builds the definition of key k; an EMPTY placement is written in one of the
+// YAML forms that mean empty (cycled by seed): key: "", bare key:, key: ~, key: null.
+func (g *gen14) kv(kind string, id, k int, pl int, visible map[string]bool) KV {
+	out := KV{K: keyName(k), V: g.value(kind, id, k, pl, visible)}
+	if pl == 2 {
+		out.Null = []string{"", "bare", "~", "null"}[g.r.Intn(4)]
+		g.nullForms[out.Null]++
+	}
+	return out
 }
 
 func unionSet(a map[string]bool, ks ...[]KV) map[string]bool {
@@ -162,12 +174,12 @@ func (g *gen14) node(depth, maxDepth int, vis map[string]bool, parentID int, isR
 		if n.Iter != nil && n.Iter.Var == kn {
 			// the role's own vars must not define its iteration variable (ambiguous)
 			if pl := g.place(k); pl != 0 {
-				n.Defaults = append(n.Defaults, KV{K: kn, V: g.value("D", n.ID, k, pl, vis01)})
+				n.Defaults = append(n.Defaults, g.kv("D", n.ID, k, pl, vis01))
 			}
 			continue
 		}
 		if pl := g.place(k); pl != 0 {
-			n.Defaults = append(n.Defaults, KV{K: kn, V: g.value("D", n.ID, k, pl, vis01)})
+			n.Defaults = append(n.Defaults, g.kv("D", n.ID, k, pl, vis01))
 		}
 	}
 	vis2 := unionSet(vis01, n.Defaults)
@@ -177,7 +189,7 @@ func (g *gen14) node(depth, maxDepth int, vis map[string]bool, parentID int, isR
 			continue
 		}
 		if pl := g.place(k); pl != 0 {
-			n.Vars = append(n.Vars, KV{K: kn, V: g.value("V", n.ID, k, pl, vis2)})
+			n.Vars = append(n.Vars, g.kv("V", n.ID, k, pl, vis2))
 		}
 	}
 	vis4 := unionSet(vis2, n.Vars)
@@ -233,13 +245,13 @@ func (g *gen14) node(depth, maxDepth int, vis map[string]bool, parentID int, isR
 		g.depthOf[sub.ID] = depth
 		for k := 0; k < nKeys; k++ {
 			if pl := g.place(k); pl != 0 && g.r.Intn(2) == 0 {
-				sub.Defaults = append(sub.Defaults, KV{K: keyName(k), V: g.value("D", sub.ID, k, pl, childVis)})
+				sub.Defaults = append(sub.Defaults, g.kv("D", sub.ID, k, pl, childVis))
 			}
 		}
 		sv2 := unionSet(childVis, sub.Defaults)
 		for k := 0; k < nKeys; k++ {
 			if pl := g.place(k); pl != 0 && g.r.Intn(2) == 0 {
-				sub.Vars = append(sub.Vars, KV{K: keyName(k), V: g.value("V", sub.ID, k, pl, sv2)})
+				sub.Vars = append(sub.Vars, g.kv("V", sub.ID, k, pl, sv2))
 			}
 		}
 		sv4 := unionSet(sv2, sub.Vars)
@@ -275,7 +287,7 @@ type userSet struct {
 // prediction: mostly the value the stage must see (role stays), sometimes a value
 // that only a wrongly widened stage would see (own default/var), sometimes noise.
 func finalizeEnabled(r *rand.Rand, root *Node, env Layer) {
-	st := &EvalState{}
+	st := &EvalState{NullAsText: true}
 	st.onStage0 = func(n *Node, look lookupFn) {
 		if n.Enabled == nil || len(n.Enabled) != 1 || n.Enabled[0].Lit != "\x00" {
 			return
@@ -346,6 +358,9 @@ func (run *c14Run) rel(path, val string, ok bool) string {
 	if val == "" {
 		return "empty"
 	}
+	if val == "~" || val == "null" {
+		return "null-scalar-text"
+	}
 	t := tagOf(val)
 	if t == "pd" || t == "pv" {
 		return "probe"
@@ -414,7 +429,7 @@ type parentRoleLike interface {
 func c14Tree(c *vlib.Ctx, e *inproc.Env, idx int) {
 	r := c.SubRand(int64(idx))
 	prefix := fmt.Sprintf("q%db%dx%d", c.Seed, c.Batch, idx)
-	g := &gen14{r: r, prefix: prefix, itKeys: map[string]bool{}, nodes: map[int]*Node{}, parent: map[int]int{}, depthOf: map[int]int{}, probes: map[string]int{}}
+	g := &gen14{r: r, prefix: prefix, itKeys: map[string]bool{}, nodes: map[int]*Node{}, parent: map[int]int{}, depthOf: map[int]int{}, probes: map[string]int{}, nullForms: map[string]int{}}
 	for k := range g.dens {
 		g.dens[k] = []int{6, 15, 30, 48}[r.Intn(4)]
 	}
@@ -447,7 +462,9 @@ func c14Tree(c *vlib.Ctx, e *inproc.Env, idx int) {
 	maxDepth := 2 + r.Intn(4) // 2..5
 	root := g.node(1, maxDepth, vis, 0, true, prefix)
 	finalizeEnabled(r, root, env)
-	tree, rootReason, st := Predict(root, env)
+	// `key: ~` / `key: null`: primary reading = the scalar's text is the value (what the
+	// YAML node carries); the other reading (empty string) is accepted as well
+	tree, rootReason, st := PredictOpt(root, env, true)
 	files := Files(root)
 	sw := r.Intn(8)
 	cs := c14Case{Idx: idx, Switches: sw, EnvD: env.D, EnvV: env.V, EnvU: env.U, Files: files}
@@ -560,6 +577,18 @@ func c14Tree(c *vlib.Ctx, e *inproc.Env, idx int) {
 	}
 	// the class of a variable mismatch needs the role path: wrap diffRole per role
 	fs := run.diffAll(tree, rootReason, workflow.VerifInfo(wfRoot), opts, &curPath)
+	if len(fs) > 0 && g.nullForms["~"]+g.nullForms["null"] > 0 {
+		altTree, altReason, altSt := PredictOpt(root, env, false)
+		if len(altSt.Errs) == 0 {
+			run2 := &c14Run{c: c, g: g, chains: map[string][]int{}}
+			run2.buildChains(altTree, nil)
+			if len(run2.diffAll(altTree, altReason, workflow.VerifInfo(wfRoot), &diffOpts{}, new(string))) == 0 {
+				// the tree follows the other admissible reading of ~ / null throughout
+				c.Count("trees_matching_null_scalars_as_empty_string", 1)
+				return
+			}
+		}
+	}
 	if report("after load", fs) {
 		return
 	}
@@ -737,6 +766,9 @@ func (run *c14Run) count(cs c14Case, tree *XRole, env Layer, st *EvalState) {
 	}
 	for f, n := range g.probes {
 		c.Count("field_probes_"+f, int64(n))
+	}
+	for f, n := range g.nullForms {
+		c.Count("empty_placements_written_as_"+map[string]string{"": "quoted_empty", "bare": "bare_key", "~": "tilde", "null": "null"}[f], int64(n))
 	}
 	if st.Iterators > 0 {
 		c.Count("trees_with_iterators", 1)
